@@ -41,7 +41,7 @@ def _clean(o):
 
 
 STR_VALUES = ["", "a", "abc", "ABC", " a ", "xax", "Xa", "x", "X", "abcd", "aaa", "aXc", "a\nc", "  ", "xx",
-              "\ta\n", "\u00e9", "aBc", "ab", "axc", " abc ", "xabcx", "AXC"]
+              "\ta\n", "\u00e9", "aBc", "ab", "axc", " abc ", "xabcx", "AXC", "a\udce9c"]        # (a lone surrogate: what os.fsdecode gives for an undecodable file name)
 
 
 def catalogue(tier):
